@@ -16,7 +16,7 @@ a lookup cur = rank_pairs.get(&RP(x)) and the start's weight w = rank_pairs.get(
 Each item is a necessary condition of 'every maximal run is written as one token' (C17) and of the range-level
 round trip (C06); together with the token semantics (C05) they characterise the passes.  The matcher is a
 loop-summary template (like C01's): it accounts for every push and every write of S in the pass."""
-from sa import idioms as I, loops as L, prov as P
+from sa import dtree, idioms as I, loops as L, prov as P
 from sa.report import Unrecognised
 
 HR = "hand_range::hand_range::HandRange"
@@ -40,36 +40,7 @@ def const_rank(t):
     return None
 
 
-def opt_edges(fn, pr, is_subject):
-    """(block, label, 'some'|'none') for every edge testing whether an Option subject is Some / None"""
-    out = []
-    for b in sorted(fn.cfg.reachable):
-        t = fn.blocks[b]["term"]
-        if t["k"] != "switch":
-            continue
-        on = pr.operand(t["on"])
-        vals = [v for v, _ in t["arms"]]
-        if on[0] == "discr" and is_subject(on[1]):
-            for lab, _tgt in fn.cfg.succ_edges[b]:
-                if lab == "otherwise":
-                    rest = {0, 1} - set(vals)
-                    if len(rest) == 1:
-                        out.append((b, lab, "some" if rest.pop() == 1 else "none"))
-                elif lab in (0, 1):
-                    out.append((b, lab, "some" if lab == 1 else "none"))
-        elif t["ty"] == "bool":
-            tt, neg = on, False
-            while tt[0] == "un" and tt[1] == "Not":
-                tt, neg = tt[2], not neg
-            if tt[0] == "call" and tt[1].rsplit("::", 1)[-1] in ("is_none", "is_some") and len(tt[2]) == 1 and is_subject(tt[2][0]):
-                for lab, _tgt in fn.cfg.succ_edges[b]:
-                    truth = I.edge_truth(on, lab, vals)
-                    if truth is None:
-                        continue
-                    truth = truth != neg
-                    is_some = (tt[1].rsplit("::", 1)[-1] == "is_some") == truth
-                    out.append((b, lab, "some" if is_some else "none"))
-    return out
+opt_edges = I.option_edges
 
 
 def edge_target(fn, b, lab):
@@ -370,17 +341,6 @@ def check_pass(ctx, F, fn, pr, ps, rule, tokens_local_pred):
     first = ps.first_term
     for region_name, region_pushes, prev_pred in (("in-loop", pushes, "prev"), ("after-loop", after_pushes, "last")):
         for bi in region_pushes:
-            tk = token_of_push(F, fn, pr, bi)
-            if tk is None:
-                problems.append(f"{region_name}: a pushed value is not HandRangeToken::new(kind, weight)")
-                continue
-            kind, pv, ops, extra, w = tk
-            if pv != ps.variant:
-                problems.append(f"{region_name}: a {pv} token is pushed by the {ps.variant} pass")
-                continue
-            if not is_weight_of_start(ps, P.strip(w, calls=False)) and not is_weight_of_start(ps, w):
-                problems.append(f"{region_name}: the token's weight is not the weight of the run's start")
-
             def is_prev(t):
                 s = P.strip(t, calls=False)
                 if prev_pred == "prev":
@@ -390,27 +350,8 @@ def check_pass(ctx, F, fn, pr, ps, rule, tokens_local_pred):
                 return const_rank(s) == ps.last_rank
 
             def is_start(t):
-                return P.strip(t) == ps.start or norm_start(t) == ps.start
+                return P.strip(t) == ps.start
 
-            def norm_start(t):
-                return P.strip(t)
-            # payload
-            rank_op = ops[ps.x_pos] if ps.x_pos < len(ops) else None
-            fixed = [o for i, o in enumerate(ops) if i != ps.x_pos]
-            if fixed != ps.fixed_ops:
-                problems.append(f"{region_name}: the {kind} token is built for another high card than the pass's")
-            if kind == "SingleRankPair":
-                if not (is_prev(rank_op) or is_start(rank_op)):
-                    problems.append(f"{region_name}: the single token does not name the run's only rank pair")
-            elif kind == "BottomClosedRankPairRange":
-                if not is_prev(rank_op):
-                    problems.append(f"{region_name}: the `+` token does not end at the run's last rank pair")
-            elif kind == "DoubleClosedRankPairRange":
-                if not (is_start(rank_op) and extra is not None and is_prev(extra)):
-                    problems.append(f"{region_name}: the span token is not (run start .. run end)")
-            else:
-                problems.append(f"{region_name}: unexpected token kind {kind}")
-                continue
             # decision table: booleans a = (start == first), b = (start == end), c = (end == first); checked per path
             def cls(t, raw):
                 if is_start(t):
@@ -437,16 +378,14 @@ def check_pass(ctx, F, fn, pr, ps, rule, tokens_local_pred):
             allowed = inner_blocks if prev_pred == "prev" else set(cfg.reach_from(entry))
             target_reach = cfg.reaches(bi)
             path_sets = []
-            stack = [(entry, dict(base_facts), frozenset([entry]))]
-            n_paths = 0
-            while stack and n_paths < 4000:
-                blk, fc, seen_b = stack.pop()
+            stack = [(entry, dict(base_facts), (entry,))]
+            while stack and len(path_sets) < 4000:
+                blk, fc, seq = stack.pop()
                 if blk == bi:
-                    path_sets.append(fc)
-                    n_paths += 1
+                    path_sets.append((fc, seq))
                     continue
                 for lab_, tgt_ in cfg.succ_edges[blk]:
-                    if tgt_ in seen_b or tgt_ not in allowed or tgt_ not in target_reach:
+                    if tgt_ in seq or tgt_ not in allowed or tgt_ not in target_reach:
                         continue
                     if prev_pred == "prev" and tgt_ == header:
                         continue
@@ -457,23 +396,66 @@ def check_pass(ctx, F, fn, pr, ps, rule, tokens_local_pred):
                             contradiction = True
                         fc2[nm_] = val_
                     if not contradiction:
-                        stack.append((tgt_, fc2, seen_b | {tgt_}))
-            ok_all = bool(path_sets)
-            for facts in path_sets:
-                for a in (False, True):
-                    for b2 in (False, True):
-                        for c in (False, True):
-                            if (a and b2 and not c) or (a and c and not b2) or (b2 and c and not a):
-                                continue
-                            if any(facts.get(n) is not None and facts[n] != v for n, v in (("a", a), ("b", b2), ("c", c))):
-                                continue
-                            want = "SingleRankPair" if b2 else ("BottomClosedRankPairRange" if a else "DoubleClosedRankPairRange")
-                            if want != kind:
-                                ok_all = False
-            if not ok_all:
-                problems.append(f"{region_name}: a {kind} token is pushed under conditions where the run "
-                                f"[start..{'prev' if prev_pred == 'prev' else ps.last_rank}] needs another shape "
-                                f"(single if start == end, `+` if the run starts at the row's first rank, span otherwise)")
+                        stack.append((tgt_, fc2, seq + (tgt_,)))
+            # the token pushed on each path: the flow-insensitive view when it is a single constructor call, else (one
+            # push fed by a kind chosen earlier, e.g. through a helper) the path-sensitive view
+            tk_all = token_of_push(F, fn, pr, bi)
+            groups = {}
+            undecoded = False
+            for (fc, seq) in path_sets:
+                tk = tk_all
+                if tk is None:
+                    class _Pth:
+                        blocks = list(seq)
+                    tk = token_of_push(F, fn, dtree.PathProv(fn, _Pth), bi)
+                if tk is None:
+                    undecoded = True
+                    continue
+                key = repr(tk)
+                groups.setdefault(key, (tk, []))[1].append(fc)
+            if undecoded or not groups:
+                problems.append(f"{region_name}: a pushed value is not HandRangeToken::new(kind, weight)")
+                continue
+            for tk, facts_list in groups.values():
+                kind, pv, ops, extra, w = tk
+                if pv != ps.variant:
+                    problems.append(f"{region_name}: a {pv} token is pushed by the {ps.variant} pass")
+                    continue
+                if not is_weight_of_start(ps, P.strip(w, calls=False)) and not is_weight_of_start(ps, w):
+                    problems.append(f"{region_name}: the token's weight is not the weight of the run's start")
+                # payload
+                rank_op = ops[ps.x_pos] if ps.x_pos < len(ops) else None
+                fixed = [o for i, o in enumerate(ops) if i != ps.x_pos]
+                if fixed != ps.fixed_ops:
+                    problems.append(f"{region_name}: the {kind} token is built for another high card than the pass's")
+                if kind == "SingleRankPair":
+                    if not (is_prev(rank_op) or is_start(rank_op)):
+                        problems.append(f"{region_name}: the single token does not name the run's only rank pair")
+                elif kind == "BottomClosedRankPairRange":
+                    if not is_prev(rank_op):
+                        problems.append(f"{region_name}: the `+` token does not end at the run's last rank pair")
+                elif kind == "DoubleClosedRankPairRange":
+                    if not (is_start(rank_op) and extra is not None and is_prev(extra)):
+                        problems.append(f"{region_name}: the span token is not (run start .. run end)")
+                else:
+                    problems.append(f"{region_name}: unexpected token kind {kind}")
+                    continue
+                ok_all = True
+                for facts in facts_list:
+                    for a in (False, True):
+                        for b2 in (False, True):
+                            for c in (False, True):
+                                if (a and b2 and not c) or (a and c and not b2) or (b2 and c and not a):
+                                    continue
+                                if any(facts.get(n) is not None and facts[n] != v for n, v in (("a", a), ("b", b2), ("c", c))):
+                                    continue
+                                want = "SingleRankPair" if b2 else ("BottomClosedRankPairRange" if a else "DoubleClosedRankPairRange")
+                                if want != kind:
+                                    ok_all = False
+                if not ok_all:
+                    problems.append(f"{region_name}: a {kind} token is pushed under conditions where the run "
+                                    f"[start..{'prev' if prev_pred == 'prev' else ps.last_rank}] needs another shape "
+                                    f"(single if start == end, `+` if the run starts at the row's first rank, span otherwise)")
     if problems:
         uniq = []
         for p_ in problems:
@@ -621,6 +603,69 @@ def range_ctor_of(lp):
     return None
 
 
+def orphan_shape(F, fn, pr, ret, map_term):
+    """problems with `ret` (a term of `fn`) as the leftover map: it must be a clone of the range's map from which exactly the
+    combos of every reported rank pair are removed: `for pair in rank_pairs(self) { for cp in pair { ret.remove(&cp) } }` (the
+    outer loop may iterate the map itself, its keys() or into_keys()); the removal loops run on every path to a return."""
+    RANK_PAIR_ = "hand_range::rank_pair::RankPair"
+    problems = []
+    if not (ret[0] == "call" and ret[1].rsplit("::", 1)[-1] == "clone" and P.strip(ret[2][0]) == map_term):
+        problems.append(f"the result is not a clone of the range's map: {P.show(ret)[:60]}")
+        return problems
+
+    def is_ret(t):
+        return P.strip(t) == ret or P.strip(t, calls=False) == ret
+    rem = [(bi, t) for bi, t in fn.calls() if t["callee"].get("name") == "remove" and bi in fn.cfg.reachable
+           and is_ret(pr.operand(t["args"][0]))]
+    # anything else that takes the clone mutably would change it behind the rule's back
+    fl = L.for_loops(fn, pr)
+    if len(rem) != 1:
+        problems.append(f"{len(rem)} remove calls on the clone (expected 1)")
+        return problems
+    bi, t = rem[0]
+    inner = [lp for lp in fl if bi in lp.body]
+    inner.sort(key=lambda lp: len(lp.body))
+    if len(inner) == 1:
+        # `for cp in self.rank_pairs().into_keys().flatten()`: the nested loops written as one flattened iterator
+        il = ol = inner[0]
+        osrc, och = ol.chain()
+        so = P.strip(osrc, calls=False)
+        if not (so[0] == "call" and so[1] == HR + "::rank_pairs" and P.strip(so[2][0]) == ("param", 1)):
+            problems.append("the outer loop does not iterate self.rank_pairs()")
+        onames = [c.rsplit("::", 1)[-1] for c in och]
+        if any(n not in ("into_iter", "iter", "keys", "into_keys", "flatten", "copied", "cloned") for n in onames):
+            problems.append("an adaptor filters the loops")
+        if "flatten" not in onames or not ("keys" in onames or "into_keys" in onames):
+            problems.append("the inner loop does not iterate the combos of the reported rank pair")
+    elif len(inner) != 2:
+        problems.append("remove is not inside two nested loops")
+        return problems
+    else:
+        il, ol = inner[0], inner[-1]
+        osrc, och = ol.chain()
+        so = P.strip(osrc, calls=False)
+        if not (so[0] == "call" and so[1] == HR + "::rank_pairs" and P.strip(so[2][0]) == ("param", 1)):
+            problems.append("the outer loop does not iterate self.rank_pairs()")
+        onames = [c.rsplit("::", 1)[-1] for c in och]
+        if any(n not in ("into_iter", "iter", "keys", "into_keys") for n in onames):
+            problems.append("an adaptor filters the loops")
+        key = P.strip(ol.item_term) if ("keys" in onames or "into_keys" in onames) else ("field", P.strip(ol.item_term), 0)
+        isrc, ich = il.chain()
+        isrc_s = P.strip(isrc)
+        if not (isrc_s == key or isrc_s == ("field", ol.item_term, 0)) or ich != [f"<{RANK_PAIR_} as std::iter::IntoIterator>::into_iter"]:
+            problems.append("the inner loop does not iterate the combos of the reported rank pair")
+    if P.strip(pr.operand(t["args"][1])) != P.strip(il.item_term):
+        problems.append("the removed key is not the current combo")
+    if not L.in_every_iteration(fn, il, bi) or not L.in_every_iteration(fn, ol, il.header):
+        problems.append("the removal is conditional")
+    if early_exits(fn, il) or early_exits(fn, ol):
+        problems.append("the removal loops can stop early")
+    rets = fn.cfg.return_blocks()
+    if not rets or not all(fn.cfg.dominates(ol.header, r) for r in rets):
+        problems.append("the removal loops are skipped on some path")
+    return problems
+
+
 def check_leftovers(ctx, F, fn, pr, prefix, passes):
     """the last pass: every combo (unordered pair of cards) is looked up in orphan_card_pairs() and, when present, emitted as a
     card-pair token with its own weight, in fixed table order, after the rank-pair passes."""
@@ -633,7 +678,21 @@ def check_leftovers(ctx, F, fn, pr, prefix, passes):
         if I.callee_path(t) == HR + "::orphan_card_pairs":
             orph = pr.call_term(t, bi)
     if orph is None:
-        raise U(rule, "Display does not consult orphan_card_pairs()", fn)
+        # the same computation written out in place (e.g. through a private helper taking the already computed rank pairs)
+        map_term = ("field", ("deref", ("param", 1)), 0)
+        cands = []
+        for bi, t in fn.calls():
+            if bi in fn.cfg.reachable and t["callee"].get("name") == "clone":
+                ct = pr.call_term(t, bi)
+                if P.strip(ct[2][0]) == map_term:
+                    cands.append(ct)
+        if len(cands) != 1:
+            raise U(rule, "Display does not consult orphan_card_pairs()", fn)
+        orph = cands[0]
+        probs = orphan_shape(F, fn, pr, orph, map_term)
+        if probs:
+            ctx.violation(rule, f"{fn.path}|leftovers|inline-orphans", "leftover map computed in place: " + "; ".join(probs[:3]),
+                          fn=fn.path, file=fn.file, line=fn.line, construct="leftover map of Display for HandRange")
     pushes = []
     for bi, t in fn.calls():
         if bi in fn.cfg.reachable and t["callee"].get("name") == "push":
@@ -686,7 +745,8 @@ def check_leftovers(ctx, F, fn, pr, prefix, passes):
     # guard: discr(get(orphans, &pair)) == Some ; weight = its payload
     def is_lookup(t):
         s_ = P.strip(t, calls=False)
-        return s_[0] == "call" and s_[1].rsplit("::", 1)[-1] == "get" and P.strip(s_[2][0]) == orph and P.strip(s_[2][1]) == pair
+        return s_[0] == "call" and s_[1].rsplit("::", 1)[-1] == "get" and P.strip(s_[2][1]) == pair and \
+            (P.strip(s_[2][0]) == orph or P.strip(s_[2][0], calls=False) == orph)
     some_edges = [(b, l) for (b, l, st) in opt_edges(fn, pr, is_lookup) if st == "some"]
     if not some_edges or not I.guarded_by(fn, bi, some_edges):
         problems.append("the card-pair token is pushed without the combo being found among the leftovers")
